@@ -1749,6 +1749,10 @@ func runOnce(c Case, T time.Duration) kit.Verdict {
 			if st.R != nil && w.level == "e2e" {
 				w.tunnelE2E(st.Conn, *st.R)
 			}
+		case "during-halt":
+			if st.R != nil && w.level == "conn" {
+				w.duringHalt(st)
+			}
 		case "hijack":
 			if st.R != nil && w.wire() {
 				w.hijackE2E(st.Conn, *st.R)
@@ -1779,9 +1783,105 @@ func runOnce(c Case, T time.Duration) kit.Verdict {
 	return w.v
 }
 
+// duringHalt writes st.R on st.Conn; once the bytes in front of its first long halt have
+// reached the client (the writer is sleeping in the halt now) it writes the responses of
+// st.Par on their connections and posts st.Cfg. None of those is subject to that halt:
+// they must be through well before the halted response resumes - by half the halt's
+// duration, which is the only clock used (no absolute bound).
+func (w *world) duringHalt(st Step) {
+	wa := w.conns[st.Conn]
+	if wa == nil || wa.dead {
+		return
+	}
+	shape := wa.cfg.byPat(st.R.Pat)
+	if shape == nil || wa.cfg != w.active {
+		return
+	}
+	var halt *act
+	for _, a := range shape.acts {
+		if a.kind == 'h' && a.dur >= 200 && a.at >= st.R.Start && a.at-st.R.Start < int64(st.R.Body) && a.lo > 0 {
+			halt = a
+			break
+		}
+	}
+	if halt == nil {
+		return
+	}
+	D := time.Duration(halt.dur) * time.Millisecond
+	w.seq++
+	seqA := w.seq
+	var resA []*obs
+	doneA := make(chan struct{})
+	go laneWorker(w, wa, []Resp{*st.R}, []int{seqA}, &resA, new(int64), doneA)
+	before := wa.consumed + len(headBytes(*st.R, seqA)) + int(halt.at-st.R.Start)
+	if !wa.st.waitLen(before, w.T) {
+		w.failf("C18/concurrent/during-halt/bytes-before-halt-timeout", "the %d bytes in front of the halt did not arrive within %v", before-wa.consumed, w.T)
+		w.abort = true
+		return
+	}
+	time.Sleep(5 * time.Millisecond) // the writer goes from its last write into the halt
+	type mark struct {
+		what string
+		at   time.Time
+	}
+	var marks []mark
+	for _, ln := range st.Par {
+		wb := w.conns[ln.Conn]
+		if wb == nil || wb.dead || wb == wa {
+			continue
+		}
+		for _, r := range ln.Rs {
+			w.seq++
+			var res []*obs
+			done := make(chan struct{})
+			go laneWorker(w, wb, []Resp{r}, []int{w.seq}, &res, new(int64), done)
+			select {
+			case <-done:
+			case <-time.After(w.T + D):
+				w.failf("C18/concurrent/other-connection-during-halt/stuck-timeout", "a response on another connection did not finish within %v while connection %d sat in a %v halt", w.T+D, wa.id, D)
+				w.abort = true
+				return
+			}
+			for _, o := range res {
+				w.settleConn(o)
+			}
+			w.evaluate(res)
+			marks = append(marks, mark{fmt.Sprintf("the response %s on connection %d", urlFor(r.Pat, w.seq), wb.id), time.Now()})
+		}
+	}
+	if st.Cfg != nil {
+		w.post(*st.Cfg, nil)
+		marks = append(marks, mark{"the answer to a configuration POST", time.Now()})
+	}
+	select {
+	case <-doneA:
+	case <-time.After(w.T + D):
+		w.failf("C18/concurrent/during-halt/halted-writer-stuck-timeout", "the halted response did not finish within %v", w.T+D)
+		w.abort = true
+		return
+	}
+	for _, o := range resA {
+		w.settleConn(o)
+	}
+	w.evaluate(resA)
+	resume, ok := wa.st.reached(before + 1)
+	if !ok {
+		return
+	}
+	for _, m := range marks {
+		if m.at.Add(D / 2).After(resume) {
+			shape := "other-connection-during-halt"
+			if strings.Contains(m.what, "POST") {
+				shape = "post-during-halt"
+			}
+			w.failf("C18/concurrent/"+shape+"/held-up-by-foreign-halt", "%s, started while connection %d slept in a %v halt that does not concern it, was through only %v before that response resumed (it needs about a millisecond; at least half the halt's duration is demanded)", m.what, wa.id, D, resume.Sub(m.at))
+		}
+	}
+}
+
 func needsRetry(v kit.Verdict) bool {
 	for _, f := range v {
-		if strings.Contains(f.Sig, "timeout") || strings.Contains(f.Sig, "too-fast") {
+		if strings.Contains(f.Sig, "timeout") || strings.Contains(f.Sig, "too-fast") || strings.Contains(f.Sig, "held-up") {
 			return true
 		}
 	}
